@@ -192,7 +192,7 @@ func bigProfile(p *world.Profile) *world.Profile {
 	if q.Fleet == 1 {
 		q.Fleet = 3 // half of the groups buy capacity through fleet requests
 	}
-	q.Weights = with(p.Weights, "bulk", 8, "bulkAnd", 8, "scan", 12)
+	q.Weights = with(p.Weights, "bulk", 8, "bulkAnd", 8, "scan", 12, "bigFleetAttachFails", 4)
 	return &q
 }
 
